@@ -402,7 +402,8 @@ class Verdict:
               "coverage": self.coverage, "assumptions": self.assumptions,
               "wall_s": round(time.time() - self.t0, 2), "violations": len(self.violations),
               "known_findings": self.known, "repo_hash": repo_hash()}
-        with open(os.path.join(VERIF, "evidence", self.pid + ".json"), "w") as fh:
+        suffix = ".dev.json" if os.environ.get("VERIF_DEV_SKIP_PROOF") else ".json"   # dev runs never overwrite real evidence
+        with open(os.path.join(VERIF, "evidence", self.pid + suffix), "w") as fh:
             json.dump(ev, fh, indent=1, default=str)
         for k in self.known:
             print("KNOWN-FINDING: property=%s %s" % (self.pid, k))
